@@ -40,7 +40,7 @@ def run(tier, seed):
     rep.add_bounded(run_bounded("c16_bounded.py", tier, seed))
     rep.trusted += [
         "pyvc/intdom.py: np.array/asarray/ones/full/cumprod/pad on small integer vectors; numpy.lib.stride_tricks.as_strided places element I at byte offset sum(I*strides)",
-        "C-contiguous arrays have strides nbyte*prod(shape[j+1:]) (np.ascontiguousarray returns such an array with equal values)",
+        "NumPy sets flags[\"C_CONTIGUOUS\"] iff some axis has length 0 or every axis of length != 1 has stride itemsize*prod(shape[j+1:]) (relaxed strides: length-1 axes are unconstrained); np.ascontiguousarray returns an array with equal values and canonical strides on every axis",
         "z3 nonlinear integer arithmetic",
     ]
     rep.assumptions += [
